@@ -8,10 +8,10 @@ import (
 	"strings"
 )
 
-var shortPool = []string{"a", "b", "c", "d", "e", "f", "g", "v", "x", "n", "h", "é", "世", "Z", "5"}
+var shortPool = []string{"a", "b", "c", "d", "e", "f", "g", "v", "x", "n", "h", "é", "世", "Z", "5", "z", "V", "A"}
 var longPool = []string{"alpha", "al", "alp", "beta", "verbose", "ver", "num", "name", "nam", "list", "map", "out", "help",
 	"naïve", "force", "for", "a-b", "x.y", "Alpha", "世界", "opt", "cfg", "dry-run", "k"}
-var cmdPool = []string{"add", "ad", "rm", "remote", "run", "fast", "show", "sh", "list", "dbg", "x", "naïve", "add-all", "commit", "co"}
+var cmdPool = []string{"add", "ad", "rm", "remote", "run", "fast", "show", "sh", "list", "dbg", "x", "naïve", "add-all", "commit", "co", "Add", "subCmd"}
 var nsPool = []string{"g", "h", "net", "db", "x.y", "ü"}
 var envPool = []string{"VF_A", "VF_B", "VF_C", "VF_D", "VF_E"}
 var descWords = []string{"Application Options", "Group One", "Extra", "Net", "Storage", "Misc", "Advanced"}
@@ -141,7 +141,7 @@ func genOptRaw(r *rand.Rand, ns *nameSpace, nsPrefix string, allowReq bool) *Opt
 		}
 	}
 	if (o.Kind == "scalar" || o.Kind == "slice") && o.VType == "string" && chance(r, 0.12) {
-		o.Choices = []string{"a", "ab", "b c"}[:1+r.Intn(3)]
+		o.Choices = pick(r, [][]string{{"a", "ab", "b c"}, {"b c", "a", "ab"}, {"ab", "b c", "a"}})[:1+r.Intn(3)]
 		o.Defaults = nil
 		o.OptVals = nil
 	}
@@ -292,7 +292,7 @@ func validValue(r *rand.Rand, o *OptNode) string {
 
 func invalidValue(r *rand.Rand, o *OptNode) string {
 	if len(o.Choices) > 0 {
-		return pick(r, []string{"A", "abc", "", "a ", "b"})
+		return pick(r, []string{"A", "abc", "", "a ", "b", "c"})
 	}
 	vt := o.VType
 	switch {
